@@ -178,14 +178,21 @@ def run_property(pid, tier, use_cache=True, njobs=16, only=None, verbose=False):
         print("KNOWN-FINDING: property=%s %s" % (pid, kf["what"]))
     os.makedirs(os.path.join(core.VERIF, "replay", "out"), exist_ok=True)
     reported = set()
+    per_job_count = {}
     for name, j, o, r in violations:
         if name in reported:
             continue
         reported.add(name)
+        per_job_count[j.name] = per_job_count.get(j.name, 0) + 1
+        if per_job_count[j.name] > 6:
+            continue        # one broken function can fail hundreds of generated safety obligations: report the first six per run
         from . import replay
         path, found = replay.write_and_replay(pid, name, j, o, r)
         print("VIOLATION property=%s replay=%s%s" % (pid, path, "" if found else " no-failing-input-found"))
         rc = 1
+    for jn, c in sorted(per_job_count.items()):
+        if c > 6:
+            print("[%s] %s: %d more failed obligations of this run not listed (see evidence)" % (pid, jn, c - 6), file=sys.stderr)
     if vacuity_problems and rc == 0:
         print("[%s] vacuity control(s) did not fail: %s" % (pid, vacuity_problems[:5]), file=sys.stderr)
         rc = 2
